@@ -448,7 +448,56 @@ class HMixPath(HMix):
         return "HMixPath(%r)" % (self.name,)
 
 
+# ordinary words a user class may already use for methods of its own.  None of them is a name of the library's
+# node classes today; should the library start to use one of them for its own plumbing, the user's method
+# (which does something else entirely) takes its place.
+USER_WORDS = (
+    "detach", "attach", "add_child", "remove_child", "add", "remove", "append", "insert", "insert_child", "move", "move_to",
+    "copy", "clear", "sort", "sort_children", "replace", "pop", "extend", "update", "delete", "level", "index",
+    "is_ancestor_of", "is_descendant_of", "walk", "find", "findall", "get", "glob", "render", "export", "to_dict", "from_dict",
+    "validate", "check", "link", "unlink", "set_parent", "get_parent", "set_children", "get_children", "add_children",
+    "remove_children", "reparent", "prune", "graft", "merge", "split", "swap", "rotate", "flatten", "visit", "accept", "apply",
+    "count", "items", "keys", "values", "node_id", "get_node_id", "is_node", "check_loop", "iter_children", "iter_path",
+)
+
+
+def _user_method(word):
+    def method(self, *args, **kwargs):
+        # something of the user's own (here: nothing at all)
+        return None
+
+    method.__name__ = word
+    return method
+
+
+class _Words(object):
+    __slots__ = ()
+
+
+for _w in USER_WORDS:
+    setattr(_Words, _w, _user_method(_w))
+
+
+class HNodeWords(_Words, HNode):
+    pass
+
+
+class HMixWords(_Words, HMix):
+    def __repr__(self):
+        return "HMixWords(%r)" % (self.name,)
+
+
+class HLightWords(_Words, HLight):
+    __slots__ = ()
+
+    def __repr__(self):
+        return "HLightWords(%r)" % (self.name,)
+
+
 CLASSES = {
+    "HNodeWords": HNodeWords,
+    "HMixWords": HMixWords,
+    "HLightWords": HLightWords,
     "HNodeUnhash": HNodeUnhash,
     "HMixNo": HMixNo,
     "HMixBag": HMixBag,
@@ -480,6 +529,9 @@ CLASSES = {
     "HLightDict": HLightDict,
 }
 FAMILY = {
+    "HNodeWords": "node",
+    "HMixWords": "node",
+    "HLightWords": "light",
     "HNodeUnhash": "node",
     "HMixNo": "node",
     "HMixBag": "node",
